@@ -137,40 +137,82 @@ func runC02(c *Ctx) {
 		}
 		c.sawFn(fnName(fn))
 		okE := false
-		allInstrs(fn, func(in ssa.Instruction) {
-			call, ok := in.(*ssa.Call)
-			if !ok || staticCallee(&call.Call) != ins {
-				return
+		for _, sf := range buildCallScope(fn).fns {
+			if sf == ins {
+				continue
 			}
-			lim, ok := call.Call.Args[budget].(*ssa.Call)
-			if !ok || !isLoadOfField(lim.Call.Value, limitF) || len(lim.Call.Args) != 1 {
-				return
-			}
-			a := lim.Call.Args[0]
-			if bo, ok := a.(*ssa.BinOp); ok && bo.Op == token.ADD && isConstInt(bo.Y, 1) {
-				a = bo.X
-			}
-			if isLoadOfField(a, sizeF) {
-				okE = true
-			}
-		})
+			allInstrs(sf, func(in ssa.Instruction) {
+				call, ok := in.(*ssa.Call)
+				if !ok || staticCallee(&call.Call) != ins {
+					return
+				}
+				lim, ok := call.Call.Args[budget].(*ssa.Call)
+				if !ok || !isLoadOfField(lim.Call.Value, limitF) || len(lim.Call.Args) != 1 {
+					return
+				}
+				a := lim.Call.Args[0]
+				if bo, ok := a.(*ssa.BinOp); ok && bo.Op == token.ADD && isConstInt(bo.Y, 1) {
+					a = bo.X
+				}
+				if isLoadOfField(a, sizeF) {
+					okE = true
+				}
+			})
+		}
 		c.judge(okE, "R-DEPTH-BUDGET", "stree.(*Tree)."+name+":initial budget", fn.Pos(), "starts from t.limit(t.size[+1])", "the insertion does not start with the depth limit for the tree's (prospective) size")
 	}
-	// (d) rebuild
+	// (d) rebuild — in the insertion itself or in a helper it calls on the way back up
 	var rw *ssa.Call
+	host := ins           // the function containing the rebuild
+	var hostCall *ssa.Call // the call of the helper inside the insertion (nil when host == ins)
 	allInstrs(ins, func(in ssa.Instruction) {
 		if call, ok := in.(*ssa.Call); ok && staticCallee(&call.Call) == rewrite {
 			rw = call
 		}
 	})
 	if rw == nil {
+		allInstrs(ins, func(in ssa.Instruction) {
+			call, ok := in.(*ssa.Call)
+			if !ok || rw != nil {
+				return
+			}
+			h := staticCallee(&call.Call)
+			if h == nil || h == ins || h.Blocks == nil || h.Pkg != ins.Pkg {
+				return
+			}
+			allInstrs(h, func(in2 ssa.Instruction) {
+				if c2, ok := in2.(*ssa.Call); ok && staticCallee(&c2.Call) == rewrite {
+					rw, host, hostCall = c2, h, call
+				}
+			})
+		})
+	}
+	if rw == nil {
 		c.bad("R-GOAT-REBUILD", "stree.(*Tree).insert:rebuild", ins.Pos(), "the insertion never rebuilds a subtree: depth is never restored")
 		return
+	}
+	// toIns maps a value of the host function to the corresponding value of the insertion
+	toIns := func(v ssa.Value) ssa.Value {
+		if hostCall == nil {
+			return v
+		}
+		if p, ok := v.(*ssa.Parameter); ok {
+			for i, q := range host.Params {
+				if q == p && i < len(hostCall.Call.Args) {
+					return hostCall.Call.Args[i]
+				}
+			}
+		}
+		return nil
 	}
 	var probs []string
 	// under flag > 0
 	under := false
-	for _, cm := range cmpsAt(rw.Block()) {
+	guardBlock := rw.Block()
+	if hostCall != nil {
+		guardBlock = hostCall.Block()
+	}
+	for _, cm := range cmpsAt(guardBlock) {
 		if cm.X == flagPhi && isConstInt(cm.Y, 0) && cm.Op == token.GTR {
 			under = true
 		}
@@ -195,9 +237,11 @@ func runC02(c *Ctx) {
 	}
 	// arguments: (root param, size made of flag + size(sibling) + 1)
 	isNodeParam := false
-	for _, p := range ins.Params {
-		if rw.Call.Args[0] == ssa.Value(p) {
-			isNodeParam = true
+	if a0 := toIns(rw.Call.Args[0]); a0 != nil {
+		for _, p := range ins.Params {
+			if a0 == ssa.Value(p) {
+				isNodeParam = true
+			}
 		}
 	}
 	if !isNodeParam {
@@ -215,7 +259,7 @@ func runC02(c *Ctx) {
 	walk(rw.Call.Args[1])
 	hasFlag, hasSib, hasOne := false, false, false
 	for _, l := range ls {
-		if l == flagPhi {
+		if tl := toIns(l); tl != nil && tl == flagPhi {
 			hasFlag = true
 		}
 		if call, ok := l.(*ssa.Call); ok && staticCallee(&call.Call) == nodeSize {
@@ -230,22 +274,63 @@ func runC02(c *Ctx) {
 	}
 	// result returned, flag cleared
 	retOK := false
-	allInstrs(ins, func(in ssa.Instruction) {
-		ret, ok := in.(*ssa.Return)
-		if !ok || len(ret.Results) <= flagIdx {
-			return
-		}
-		ph0, ok0 := ret.Results[0].(*ssa.Phi)
-		ph1, ok1 := ret.Results[flagIdx].(*ssa.Phi)
-		if !ok0 || !ok1 {
-			return
-		}
-		for i, e := range ph0.Edges {
-			if e == ssa.Value(rw) && i < len(ph1.Edges) && isConstInt(ph1.Edges[i], 0) {
-				retOK = true
+	if hostCall == nil {
+		allInstrs(ins, func(in ssa.Instruction) {
+			ret, ok := in.(*ssa.Return)
+			if !ok || len(ret.Results) <= flagIdx {
+				return
 			}
+			ph0, ok0 := ret.Results[0].(*ssa.Phi)
+			ph1, ok1 := ret.Results[flagIdx].(*ssa.Phi)
+			if !ok0 || !ok1 {
+				return
+			}
+			for i, e := range ph0.Edges {
+				if e == ssa.Value(rw) && i < len(ph1.Edges) && isConstInt(ph1.Edges[i], 0) {
+					retOK = true
+				}
+			}
+		})
+	} else {
+		// the helper returns (rebuilt subtree, 0) together; the insertion returns those two results as its subtree and flag
+		hr, hf := -1, -1
+		allInstrs(host, func(in ssa.Instruction) {
+			ret, ok := in.(*ssa.Return)
+			if !ok {
+				return
+			}
+			for i, r := range ret.Results {
+				if r == ssa.Value(rw) {
+					for j, r2 := range ret.Results {
+						if j != i && isConstInt(r2, 0) {
+							hr, hf = i, j
+						}
+					}
+				}
+			}
+		})
+		if hr >= 0 {
+			fromExtract := func(v ssa.Value, idx int) bool {
+				var lvs []ssa.Value
+				phiLeaves(v, nil, map[ssa.Value]bool{}, &lvs)
+				for _, l := range lvs {
+					if ex, ok := l.(*ssa.Extract); ok && ex.Tuple == ssa.Value(hostCall) && ex.Index == idx {
+						return true
+					}
+				}
+				return false
+			}
+			allInstrs(ins, func(in ssa.Instruction) {
+				ret, ok := in.(*ssa.Return)
+				if !ok || len(ret.Results) <= flagIdx {
+					return
+				}
+				if fromExtract(ret.Results[0], hr) && fromExtract(ret.Results[flagIdx], hf) {
+					retOK = true
+				}
+			})
 		}
-	})
+	}
 	if !retOK {
 		probs = append(probs, "the rebuilt subtree is not returned with the flag cleared")
 	}
